@@ -13,6 +13,8 @@ import (
 	"go/token"
 	"go/types"
 	"math/big"
+	"os"
+	"sort"
 	"strings"
 
 	"golang.org/x/tools/go/ssa"
@@ -64,6 +66,9 @@ type Interp struct {
 	// NoInline: callees that must not be inlined (treated as opaque calls);
 	// used by rules that want call-site level facts.
 	trace bool
+	// discover: loops whose body is being run once with havoc'd local-object fields to find the fields the loop
+	// advances (see carriedFields)
+	discover map[*loopInfo]*fieldDiscovery
 }
 
 func newInterp(prog *ssa.Program, pkg *ssa.Package, sizes types.Sizes) *Interp {
@@ -513,7 +518,15 @@ func (ip *Interp) store(p PtrV, v Val, st *State, fr *frame, pos token.Pos) {
 		// a store into a local object inside a summarised loop body would make
 		// the one-iteration summary unsound for the object's state
 		if p.Obj.LoopID != st.loops[len(st.loops)-1].ID {
-			ip.undecided(st, fr, pos, "store to a local object inside a loop body")
+			allowed := len(ip.discover) > 0
+			for _, lc := range st.loops {
+				if lc.Carried[p.Obj] {
+					allowed = true
+				}
+			}
+			if !allowed {
+				ip.undecided(st, fr, pos, "store to a local object inside a loop body")
+			}
 		}
 	}
 }
@@ -1008,11 +1021,29 @@ func (ip *Interp) execLoop(fr *frame, lp *loopInfo, pred *ssa.BasicBlock, st *St
 			return fail("loop-carried value of non-scalar type (" + phi.Comment + ")")
 		}
 	}
-	if len(ivs) == 0 && len(affine) == 0 && len(sliceIVs) == 0 {
+	// fields of local objects that the loop advances (cursor structs): found by running the loop once with the
+	// fields havoc'd (discovery), then modelled as init + step*K like any other induction variable
+	disc := ip.discover[lp]
+	var fivs []fieldIV
+	if disc == nil {
+		if cands := localLeaves(st); len(cands) > 0 {
+			fivs = ip.discoverFields(fr, lp, pred, st, cands)
+		}
+	}
+	if len(ivs) == 0 && len(affine) == 0 && len(sliceIVs) == 0 && len(fivs) == 0 && disc == nil {
 		return fail("no induction variable")
 	}
 	// header body
 	bst := st.clone()
+	if len(fivs) > 0 {
+		ctx.Carried = map[*Object]bool{}
+		for _, fi := range fivs {
+			ctx.Carried[fi.obj] = true
+			if nv, ok := setPath(ip.content(fi.obj, bst), fi.path, fi.at(ctx.K)); ok {
+				bst.mem[fi.obj] = nv
+			}
+		}
+	}
 	bst.loops = append(bst.loops, ctx)
 	ctx.FactBase = len(bst.facts.list)
 	bst.facts.add(Cond{Kind: CGE0, P: normInt(ctx.K), Tag: "loop"})
@@ -1057,6 +1088,21 @@ func (ip *Interp) execLoop(fr *frame, lp *loopInfo, pred *ssa.BasicBlock, st *St
 		return fail("loop test is not scalar")
 	}
 	c := condOf(cv, inIdx == 1)
+	if disc != nil {
+		// discovery run: take the body once under the loop test, whatever its form, and compare the fields
+		c.Tag = "loop"
+		bst.facts.add(c)
+		bfr.active = append(bfr.active, lp)
+		bst.body = ip.id()
+		for _, o := range ip.execFrom(bfr, h.Succs[inIdx], 0, h, bst) {
+			if o.Kind == OBack && o.loop == lp {
+				disc.observe(o.St)
+			} else if o.Kind != OPanic {
+				disc.failed = true
+			}
+		}
+		return nil
+	}
 	if c.Kind != CGE0 {
 		return fail("loop test is not an ordering comparison: " + c.String())
 	}
@@ -1130,8 +1176,14 @@ func (ip *Interp) execLoop(fr *frame, lp *loopInfo, pred *ssa.BasicBlock, st *St
 					post.effects = append(post.effects, e)
 				}
 			}
-			if !sameMem(memBefore, o.St) {
+			if !sameMemExcept(memBefore, o.St, ctx.Carried) {
 				ip.undecided(post, fr, ctx.Pos, "non-canonical loop: the body changes a header or local object")
+			}
+			for _, fi := range fivs {
+				got, _ := getPath(ip.content(fi.obj, o.St), fi.path)
+				if valKey(canonVal(got)) != valKey(canonVal(fi.at(mkBin(token.ADD, ctx.K, mkInt(1, intT), intT)))) {
+					ip.undecided(post, fr, ctx.Pos, "non-canonical loop: a cursor field does not advance by its step on every path")
+				}
 			}
 		case OPanic, OAbort:
 			result = append(result, o)
@@ -1159,6 +1211,11 @@ func (ip *Interp) execLoop(fr *frame, lp *loopInfo, pred *ssa.BasicBlock, st *St
 			continue
 		}
 		xfr.env[phi] = at.subst(map[string]*Term{ctx.K.Name: trips})
+	}
+	for _, fi := range fivs {
+		if nv, ok := setPath(ip.content(fi.obj, post), fi.path, fi.at(trips)); ok {
+			post.mem[fi.obj] = nv
+		}
 	}
 	for _, phi := range sliceIVs {
 		if sv, ok := bfr.env[phi].(SliceV); ok {
@@ -1302,6 +1359,7 @@ func (ip *Interp) foldCarried(ctx *LoopCtx, lp *loopInfo, cr carried, backs []Ou
 		var alt []Outcome
 		k2 := ""
 		good := true
+		keepKeys, updKeys := map[string]int{}, map[string]int{}
 		for _, o := range backs {
 			pi := -1
 			for i, p := range h.Preds {
@@ -1329,7 +1387,59 @@ func (ip *Interp) foldCarried(ctx *LoopCtx, lp *loopInfo, cr carried, backs []Ou
 				}
 			}
 			kk := map[Op]string{OpMax: "max", OpMin: "min"}[cn.Op]
-			if g == nil || g.contains(func(x *Term) bool { return x.Key() == cr.atom.Key() }) || (k2 != "" && k2 != kk) {
+			mentionsAcc := func(x *Term) bool { return x.Key() == cr.atom.Key() }
+			filtered := func(st *State) (*State, string) {
+				fs := st.clone()
+				var kept []Cond
+				var keys []string
+				for i, fc := range st.facts.list {
+					if i >= nfacts && fc.P != nil && fc.P.mentions(mentionsAcc) {
+						continue
+					}
+					kept = append(kept, fc)
+					if i >= nfacts && fc.Tag != "axiom" {
+						keys = append(keys, fc.Key())
+					}
+				}
+				fs.facts.list = kept
+				sort.Strings(keys)
+				return fs, strings.Join(keys, "&")
+			}
+			if g == nil && cn.Key() == cr.atom.Key() {
+				// the path keeps the accumulator: it must be the complement of an updating path (checked below)
+				_, k := filtered(o.St)
+				keepKeys[k]++
+				continue
+			}
+			if g == nil && isIntLike(cn.Typ) && !cn.contains(mentionsAcc) {
+				// "if v > acc { acc = v }": the new value under the comparison that selected it
+				d := normInt(cn).Sub(normInt(cr.atom))
+				for _, fc := range o.St.facts.list[minI(nfacts, len(o.St.facts.list)):] {
+					if fc.Kind != CGE0 {
+						continue
+					}
+					if fc.P.Equal(d.AddInt(-1)) || fc.P.Equal(d) {
+						g, kk = cn, "max"
+					}
+					if fc.P.Equal(d.Neg().AddInt(-1)) || fc.P.Equal(d.Neg()) {
+						g, kk = cn, "min"
+					}
+				}
+				if g != nil {
+					fs, k := filtered(o.St)
+					updKeys[k]++
+					oc := o
+					oc.Kind, oc.Ret, oc.St = ORet, g, fs
+					if k2 != "" && k2 != kk {
+						good = false
+						break
+					}
+					k2 = kk
+					alt = append(alt, oc)
+					continue
+				}
+			}
+			if g == nil || g.contains(mentionsAcc) || (k2 != "" && k2 != kk) {
 				good = false
 				break
 			}
@@ -1338,6 +1448,20 @@ func (ip *Interp) foldCarried(ctx *LoopCtx, lp *loopInfo, cr carried, backs []Ou
 			oc.Kind = ORet
 			oc.Ret = g
 			alt = append(alt, oc)
+		}
+		// every path that keeps the accumulator must mirror exactly one path that updates it under the comparison
+		for k, n := range keepKeys {
+			if updKeys[k] != n {
+				good = false
+			}
+		}
+		for k, n := range updKeys {
+			if keepKeys[k] != n {
+				good = false
+			}
+		}
+		if good && len(alt) == 1 {
+			return &Term{Op: OpFold, Name: k2, Typ: cr.phi.Type(), Loop: ctx, Args: []*Term{canon(initT), canon(valTerm(alt[0].Ret))}}
 		}
 		if good && len(alt) > 1 {
 			if m, ok := mergeIte(alt, nfacts, 0); ok {
@@ -1425,7 +1549,7 @@ func (ip *Interp) step(fr *frame, in ssa.Instruction, st *State) {
 			o.LoopID = st.loops[n-1].ID
 		}
 		fr.env[x] = PtrV{Obj: o, Typ: pt.Elem()}
-		if x.Heap && !capturedByLocalClosuresOnly(x) {
+		if x.Heap && !capturedByLocalClosuresOnly(x) && !addressStaysLocal(x, 0) {
 			st.addEffect(&Effect{Kind: EAlloc, Pos: x.Pos(), Fn: fr.fn, Stack: fr.stack, Sites: fr.sites, Obj: o, Note: "new " + typeKey(pt.Elem()) + " (" + x.Comment + ")", Heap: true, Typ: pt.Elem()})
 		}
 	case *ssa.BinOp:
@@ -2383,4 +2507,300 @@ func (ip *Interp) RunClosure(cv ClosureV, st *State) []Outcome {
 		fr.env[p] = ip.symVal(p.Name(), p.Type(), OParam, p.Name(), s2)
 	}
 	return ip.execFrom(fr, fn.Blocks[0], 0, nil, s2)
+}
+
+// ---------- loop-carried fields of local objects ----------
+
+type leafRef struct {
+	obj  *Object
+	path []int
+}
+
+// fieldIV: a scalar or slice field of a local object that advances by a constant or loop-invariant step.
+type fieldIV struct {
+	obj   *Object
+	path  []int
+	initT *Term  // scalar field
+	stepT *Term  //   value at iteration k: initT + stepT*k
+	initS SliceV // slice field
+	stepC *Term  //   offset + stepC*k, len - stepC*k, cap - stepC*k
+	slice bool
+}
+
+func (f fieldIV) at(k *Term) Val {
+	if !f.slice {
+		return mkBin(token.ADD, f.initT, mkBin(token.MUL, f.stepT, k, f.initT.Typ), f.initT.Typ)
+	}
+	adv := mkBin(token.MUL, f.stepC, k, intT)
+	nv := f.initS
+	nv.Off = mkBin(token.ADD, f.initS.Off, adv, intT)
+	nv.Len = mkBin(token.SUB, f.initS.Len, adv, intT)
+	nv.Cap = mkBin(token.SUB, f.initS.Cap, adv, intT)
+	return nv
+}
+
+func canonVal(v Val) Val {
+	switch x := v.(type) {
+	case *Term:
+		if isIntLike(x.Typ) {
+			return normInt(x).toTerm()
+		}
+		return canon(x)
+	case SliceV:
+		x.Off, x.Len, x.Cap = normInt(x.Off).toTerm(), normInt(x.Len).toTerm(), normInt(x.Cap).toTerm()
+		return x
+	}
+	return v
+}
+
+// localLeaves lists the integer and slice leaves of the local (fresh, non-array) objects of the state.
+func localLeaves(st *State) []leafRef {
+	var out []leafRef
+	var walk func(o *Object, v Val, path []int)
+	walk = func(o *Object, v Val, path []int) {
+		switch x := v.(type) {
+		case StructV:
+			for i, f := range x.F {
+				walk(o, f, append(append([]int{}, path...), i))
+			}
+		case *Term:
+			if isIntLike(x.Typ) {
+				out = append(out, leafRef{o, path})
+			}
+		case SliceV:
+			if x.Stor != nil && !x.Nil {
+				out = append(out, leafRef{o, path})
+			}
+		}
+	}
+	for o, v := range st.mem {
+		if o.Kind != OFresh {
+			continue
+		}
+		if _, isArr := o.Typ.Underlying().(*types.Array); isArr {
+			continue
+		}
+		if isBufferType(o.Typ) {
+			continue // buffer headers are never loop cursors; their stores are effects of their own
+		}
+		walk(o, v, nil)
+	}
+	sort.Slice(out, func(i, j int) bool {
+		if out[i].obj.ID != out[j].obj.ID {
+			return out[i].obj.ID < out[j].obj.ID
+		}
+		return pathString(out[i].path) < pathString(out[j].path)
+	})
+	return out
+}
+
+type fieldDiscovery struct {
+	cands   []leafRef
+	atoms   []Val // havoc value per candidate
+	steps   []*Term
+	seen    bool
+	failed  bool
+	probe   bool   // first run: only find out which fields change at all
+	changed []bool //   result of the probe run
+}
+
+// observe compares the candidates at a back edge with their havoc'd entry values.
+func (d *fieldDiscovery) observe(st *State) {
+	defer func() {
+		if d.failed && os.Getenv("VERIF_DEBUG_DISC") != "" {
+			for i, c := range d.cands {
+				cur, _ := getPath(st.mem[c.obj], c.path)
+				fmt.Fprintf(os.Stderr, "  cand %d %s%v havoc=%s cur=%s\n", i, c.obj.Name, c.path, valString(d.atoms[i]), valString(cur))
+			}
+		}
+	}()
+	for i, c := range d.cands {
+		cur, ok := getPath(st.mem[c.obj], c.path)
+		if !ok || st.mem[c.obj] == nil {
+			d.failed = true
+			return
+		}
+		if d.probe {
+			if valKey(canonVal(cur)) != valKey(canonVal(d.atoms[i])) {
+				d.changed[i] = true
+			}
+			continue
+		}
+		var step *Term
+		switch a := d.atoms[i].(type) {
+		case *Term:
+			t, isT := cur.(*Term)
+			if !isT {
+				d.failed = true
+				return
+			}
+			step = normInt(t).Sub(normInt(a)).toTerm()
+		case SliceV:
+			s, isS := cur.(SliceV)
+			if !isS || s.Stor != a.Stor {
+				d.failed = true
+				return
+			}
+			step = normInt(s.Off).Sub(normInt(a.Off)).toTerm()
+			if !normInt(a.Len).Sub(normInt(s.Len)).Equal(normInt(step)) || !normInt(a.Cap).Sub(normInt(s.Cap)).Equal(normInt(step)) {
+				d.failed = true
+				return
+			}
+		}
+		// the step must not depend on the havoc'd fields or on the iteration
+		if step.contains(func(x *Term) bool { return x.Op == OpAtom && (strings.HasPrefix(x.Name, "havoc.") || x.Loop != nil) }) {
+			d.failed = true
+			return
+		}
+		if d.seen && d.steps[i] != nil && !normInt(d.steps[i]).Equal(normInt(step)) {
+			d.failed = true
+			return
+		}
+		d.steps[i] = step
+	}
+	d.seen = true
+}
+
+// discoverFields runs the loop once in discovery mode and returns the fields that advance by a non-zero step.
+func (ip *Interp) discoverFields(fr *frame, lp *loopInfo, pred *ssa.BasicBlock, st *State, cands []leafRef) []fieldIV {
+	if ip.discover == nil {
+		ip.discover = map[*loopInfo]*fieldDiscovery{}
+	}
+	return ip.discoverFields2(fr, lp, pred, st, cands, true)
+}
+
+func (ip *Interp) discoverFields2(fr *frame, lp *loopInfo, pred *ssa.BasicBlock, st *State, cands []leafRef, probe bool) []fieldIV {
+	d := &fieldDiscovery{cands: cands, atoms: make([]Val, len(cands)), steps: make([]*Term, len(cands)), probe: probe, changed: make([]bool, len(cands))}
+	ds := st.clone()
+	for i, c := range cands {
+		cur, _ := getPath(ds.mem[c.obj], c.path)
+		name := fmt.Sprintf("havoc.%d.%s", c.obj.ID, pathString(c.path))
+		switch x := cur.(type) {
+		case *Term:
+			d.atoms[i] = mkAtom(name, x.Typ)
+		case SliceV:
+			hv := x
+			hv.Off, hv.Len, hv.Cap = mkAtom(name+".off", intT), mkAtom(name+".len", intT), mkAtom(name+".cap", intT)
+			d.atoms[i] = hv
+		}
+		if nv, ok := setPath(ds.mem[c.obj], c.path, d.atoms[i]); ok {
+			ds.mem[c.obj] = nv
+		}
+	}
+	ip.discover[lp] = d
+	savedPaths := ip.npaths
+	ip.execLoop(fr.fork(), lp, pred, ds)
+	ip.npaths = savedPaths
+	delete(ip.discover, lp)
+	if os.Getenv("VERIF_DEBUG_DISC") != "" {
+		fmt.Fprintf(os.Stderr, "DISC loop@%v cands=%d failed=%v seen=%v steps=%v\n", ip.fset.Position(firstPos(lp.header)), len(cands), d.failed, d.seen, d.steps)
+	}
+	if d.failed || !d.seen {
+		return nil
+	}
+	if probe {
+		// second run: only the fields that change are havoc'd, the others keep their values (a stride, a bound)
+		var moving []leafRef
+		for i, c := range cands {
+			if d.changed[i] {
+				moving = append(moving, c)
+			}
+		}
+		if len(moving) == 0 {
+			return nil
+		}
+		return ip.discoverFields2(fr, lp, pred, st, moving, false)
+	}
+	var out []fieldIV
+	for i, c := range cands {
+		if d.steps[i] == nil {
+			continue
+		}
+		if z, ok := normInt(d.steps[i]).IsConst(); ok && z.Sign() == 0 {
+			continue
+		}
+		cur, _ := getPath(st.mem[c.obj], c.path)
+		switch x := cur.(type) {
+		case *Term:
+			out = append(out, fieldIV{obj: c.obj, path: c.path, initT: x, stepT: d.steps[i]})
+		case SliceV:
+			out = append(out, fieldIV{obj: c.obj, path: c.path, initS: x, stepC: d.steps[i], slice: true})
+		}
+	}
+	return out
+}
+
+// sameMemExcept is sameMem that skips the carried objects (their fields are checked against their step).
+func sameMemExcept(before map[*Object]string, st *State, skip map[*Object]bool) bool {
+	for o, v := range st.mem {
+		if skip[o] {
+			continue
+		}
+		k, ok := before[o]
+		if !ok {
+			continue
+		}
+		if k != valKey(v) {
+			return false
+		}
+	}
+	return true
+}
+
+// addressStaysLocal: go/ssa marks a local whose address is passed to a call as a heap cell. When the address (and
+// every field address derived from it) is only loaded from, stored through, or handed as an argument to static
+// in-package callees that treat their parameter the same way, the cell does not outlive the frame (a cursor struct
+// with pointer-receiver methods). The compiler's own verdict is cross-checked by E6.
+func addressStaysLocal(v ssa.Value, depth int) bool {
+	refs := v.Referrers()
+	if refs == nil || depth > 6 {
+		return false
+	}
+	for _, r := range *refs {
+		switch y := r.(type) {
+		case *ssa.Store:
+			if y.Val == v {
+				return false // the address itself is stored
+			}
+		case *ssa.UnOp:
+			if y.Op != token.MUL {
+				return false
+			}
+		case *ssa.FieldAddr:
+			if !addressStaysLocal(y, depth+1) {
+				return false
+			}
+		case *ssa.IndexAddr:
+			if !addressStaysLocal(y, depth+1) {
+				return false
+			}
+		case *ssa.ChangeType:
+			// instantiation wrappers re-type the pointer without changing it
+			if _, isP := y.Type().Underlying().(*types.Pointer); !isP || !addressStaysLocal(y, depth) {
+				return false
+			}
+		case *ssa.DebugRef:
+		case *ssa.Call:
+			com := y.Common()
+			callee := com.StaticCallee()
+			if callee != nil && len(callee.Blocks) == 0 && callee.Origin() != nil {
+				callee = callee.Origin() // a method of a generic type called from a generic body
+			}
+			if callee == nil || len(callee.Blocks) == 0 || com.IsInvoke() || callee.Signature.Variadic() {
+				return false
+			}
+			args := com.Args
+			for i, a := range args {
+				if a != v {
+					continue
+				}
+				if i >= len(callee.Params) || !addressStaysLocal(callee.Params[i], depth+1) {
+					return false
+				}
+			}
+		default:
+			return false
+		}
+	}
+	return true
 }
